@@ -97,6 +97,7 @@ type vWorld struct {
 	openVout            uint32
 	openTxHex           string
 	lastFlatFee         uint64
+	maxFlatFee          uint64
 	senderAdds          int
 	senderRemoves       int
 	lastTimeout         time.Duration
@@ -397,6 +398,9 @@ func (w *vWallet) GetFlatOpeningTXFee() (uint64, error) {
 		return 0, errors.New("fee estimate failed")
 	}
 	f := zzverif.U64("flatfee")
+	if w.w.maxFlatFee != 0 {
+		zzverif.Assume(f < w.w.maxFlatFee) // stated bound of the entry on the wallet's estimate
+	}
 	w.w.lastFlatFee = f
 	return f, nil
 }
@@ -629,6 +633,15 @@ func vCheapCompute(p *premium.PPM, amtSat uint64) int64 {
 	return int64(amtSat) * p.Value() / 1000000
 }
 
+// vUFCompute: entries about how amounts and premiums are used (C12) need no fact about the premium
+// arithmetic beyond "the same rate and amount give the same premium": PPM.Compute is an uninterpreted
+// function there (symbolic side; natively the real Compute runs).  Its arithmetic is C27's subject.
+var vUFPremium bool
+
+func vUFCompute(p *premium.PPM, amtSat uint64) int64 {
+	return int64(zzverif.UFU64("ppm.compute", p.Value(), amtSat))
+}
+
 func vPremiumGetRate(p *premium.BBoltPremiumStore, peer string, asset premium.AssetType, operation premium.OperationType) (*premium.PremiumRate, error) {
 	r := vCurWorld.rates
 	if peer == "default" {
@@ -651,7 +664,9 @@ func vPremiumSetting(w *vWorld, peer string) *premium.Setting {
 	vCurWorld = w
 	if zzverif.Symbolic() {
 		zzverif.Override("(*github.com/elementsproject/peerswap/premium.BBoltPremiumStore).GetRate", vPremiumGetRate)
-		if !vExactPremium {
+		if vUFPremium {
+			zzverif.Override("(*github.com/elementsproject/peerswap/premium.PPM).Compute", vUFCompute)
+		} else if !vExactPremium {
 			zzverif.Override("(*github.com/elementsproject/peerswap/premium.PPM).Compute", vCheapCompute)
 		}
 		return &premium.Setting{}
